@@ -2,12 +2,50 @@
 import drivers.c18  # noqa: F401   (registers the drivers)
 
 PROP = "C18"
-LEVEL = "exploration"
-LEVEL_TEXT = "tbd"
-LEVEL_NOTE = "tbd"
+LEVEL = "exploration"          # until the E1 (SMT) part is added by the main session; do not claim more
+LEVEL_TEXT = ("Bounded run-time contracts only: quimb.Evolution is driven through histories of update_to / at_times calls for "
+              "every (method x state kind x Hamiltonian representation) cell on random Hermitian Hamiltonians of dimension "
+              "2..8 and the reported (t, state) is compared with scipy.linalg.expm(-iH(t-t0)) applied one- or two-sidedly "
+              "(time-dependent H: a converged 4th-order Magnus product); conservation laws, callback plumbing, int_stop, "
+              "progress bar and the rejection of unsupported cells are checked on the same domain. Nothing is proved for "
+              "larger systems or other Hamiltonians.")
+LEVEL_NOTE = ("Trusted: scipy.linalg.expm, numpy.linalg.eigh (reference propagators); tolerances 1e-9 (solve), 1e-8 (expm), "
+              "1e-5 (integrate), 2e-5 (time-dependent) on max|state - reference|; five input classes on which the unchanged "
+              "library crashes or mis-evolves are recorded as known findings C18-a..e and are not value-checked.")
 TECHNIQUE = "run-time contracts on the real functions vs independent numpy references over a stated bounded domain (bounded stand-in)"
-E1 = []
+E1 = []                        # filled later by the main session
 PROVIDERS = []
-TRUSTED = ["numpy / scipy.linalg reference computations"]
-ASSUMPTIONS = []
-EXPLANATION = "tbd"
+TRUSTED = [
+    "scipy.linalg.expm and numpy.linalg.eigh used for the reference propagators in drivers/c18.py",
+    "the commutator-free 4th-order Magnus step (two exponentials per step, Gauss nodes) with step <= 0.02, accepted only "
+    "when it agrees with step <= 0.01 to 1e-7",
+]
+ASSUMPTIONS = [
+    "Hamiltonians: random Hermitian (complex and real symmetric), d in {2,3,4,5,8}, spectral radius about 1-2; "
+    "time-dependent: H0 + cos(w1 t) H1 + sin(w2 t) t/(1+t^2) H2 with d in {2,3,4,6}; |t - t0| <= 7.5",
+    "states: normalised random kets (qarray, ndarray column, 1-d array), pure and rank-<=3 mixed density operators "
+    "(qarray, ndarray); sparse initial states are treated as 'accepted => must be right'",
+    "supported cells (must work): solve x {qarray, ndarray, csr, csc, coo, bsr, presolved tuple/list}; integrate x the same "
+    "plus scipy LinearOperator and callables H(t); expm x matrices x kets; a presolved (evals, evecs) pair always selects the "
+    "diagonalisation route whatever `method` says (as the constructor documents)",
+    "cells that must be rejected or else be right: solve / expm with LinearOperator or callable H(t); expm with a density "
+    "operator; quimb.Lazy (only meaningful with the absent slepc backend; incidental exceptions tolerated there); a callable "
+    "returning a LinearOperator",
+    "time sequences: non-uniform, repeated, nearly repeated (1e-7 apart), starting at t0, one long step; non-monotone and "
+    "t < t0 only for the diagonalisation and single-shot-exponential methods -- the property asks for them only where the "
+    "method allows; the ODE stepper is only driven forward (driving it backwards occasionally makes scipy's dop853 run "
+    "away to t ~ 1e4 with only a UserWarning -- observed, reported, outside the quantifier)",
+    "integrator callbacks are invoked at every accepted step (documented), so for method='integrate' the contract is that "
+    "every (t, state) a callback sees is correct and that the requested times are among them with exactly the reported "
+    "state; for solve / expm: exactly one invocation per update with exactly the reported (t, state)",
+    "tolerances: max-abs deviation 1e-9 solve, 1e-8 expm, 1e-5 integrate (scipy default rtol 1e-6), 2e-5 time-dependent; "
+    "conserved quantities to 10x these",
+]
+EXPLANATION = (
+    "E3 (bounded): 3 drivers. evolution-grid: the full support table (11 Hamiltonian representations x 3 methods x 6 state "
+    "representations x 3 initial times x 5 time sequences x update_to / at_times), each history compared step by step with "
+    "the matrix exponential (t, state, norm / trace, purity, energy), unsupported cells must raise, unknown methods must "
+    "raise. time-dependent: callables returning qarray / ndarray / csr / LinearOperator with both integrator orders vs a "
+    "time-ordered product of short-time exponentials; solve / expm must reject them. callbacks: single and dict compute "
+    "callbacks with 2- and 3-argument signatures (the ham argument is the documented object), results vs own evaluation, "
+    "int_stop (alone / with compute, rejected for other methods), progbar=True.")
